@@ -26,6 +26,7 @@ type EvalCtx struct {
 	shadow     map[string]bool // bound variables / results shadowing parameter names
 	calleeFn   *ssa.Function   // ensures of a callee assumed at a call site: its local variables are existential witnesses
 	witnesses  map[string]TV   // per call: one fresh constant per callee local mentioned in its ensures
+	fvCells    map[string]*Ptr // contract of a closure applied at a call site: its captured variables, by name
 }
 
 type evalError struct{ msg string }
@@ -232,6 +233,12 @@ func (c *EvalCtx) ident(name string) TV {
 			}
 		}
 	}
+	if p, ok := c.fvCells[name]; ok {
+		if _, shadow := c.shadow[name]; !shadow {
+			v, t := c.x.load(c.state(), p)
+			return TV{V: v, T: t, S: c.prog.sortOf(t)}
+		}
+	}
 	if tv, ok := c.vars[name]; ok {
 		if c.inOld {
 			// parameters: entry value
@@ -288,9 +295,13 @@ func (c *EvalCtx) ident(name string) TV {
 		if tv, ok := c.witnesses[name]; ok {
 			return tv
 		}
+		wname := name
+		if r, ok := c.prog.renamedLocal(c.calleeFn, name); ok {
+			wname = r
+		}
 		for _, b := range c.calleeFn.Blocks {
 			for _, in := range b.Instrs {
-				if a, ok := in.(*ssa.Alloc); ok && a.Comment == name {
+				if a, ok := in.(*ssa.Alloc); ok && a.Comment == wname {
 					t := a.Type().(*types.Pointer).Elem()
 					v := c.x.freshValue(c.st, "witness."+name, t)
 					tv := TV{V: v, T: t, S: c.prog.sortOf(t)}
@@ -360,6 +371,9 @@ func (c *EvalCtx) localVar(name string) (TV, bool) {
 	if i := strings.Index(name, "#"); i >= 0 {
 		fmt.Sscanf(name[i+1:], "%d", &want)
 		base = name[:i]
+	}
+	if r, ok := c.prog.renamedLocal(x.fn, base); ok {
+		base = r
 	}
 	n := 0
 	var found *ssa.Alloc
